@@ -94,6 +94,9 @@ type mon struct {
 	c   *core.Case
 	r   *rand.Rand
 	bad bool // this case has refuted the property
+
+	held  []heldJID // immutability monitor (alias.go)
+	oplog []string
 }
 
 // A defect that is present fails in a large share of the cases; a child
@@ -493,6 +496,14 @@ func (m *mon) accepted(j jid.JID, how, input string, depth int) {
 		}
 	}
 
+	// a chain of derived values, all of which must stay what they were
+	if depth == 0 {
+		m.aliasing(j, input)
+		if m.bad {
+			return
+		}
+	}
+
 	// mutants of the accepted address
 	if depth == 0 {
 		for k := 0; k < 2; k++ {
@@ -585,6 +596,9 @@ func Prop() *core.Prop {
 			"law_L1_L2_L3_evaluations", "law_L4_parse_vs_new", "law_L4_split_evaluations", "law_L4_WithLocal", "law_L4_WithDomain", "law_L4_WithResource",
 			"WithLocal_both_accept", "WithLocal_both_reject", "WithDomain_both_accept", "WithDomain_both_reject", "WithResource_both_accept", "WithResource_both_reject",
 			"law_L5_xml_roundtrips",
+			"alias_sequences", "alias_ops", "alias_held_values_rechecked", "alias_base_shrank_under_normalisation",
+			"alias_WithResource_on_receiver_without_resourcepart", "alias_WithResource_fits_in_bytes_behind_receiver", "alias_two_results_from_one_receiver",
+			"alias_op_Bare", "alias_op_Domain", "alias_op_Copy", "alias_op_WithLocal", "alias_op_WithDomain", "alias_op_WithResource",
 		},
 	}
 }
